@@ -265,7 +265,10 @@ def run_case(case, ctx):
         elif api == "extract_chans":
             chans = rng.choice(nch, size=2, replace=False)
             case = dict(case, chans=chans.tolist()); ck.case = case
-            names = fil.extract_chans(chans, os.path.join(d, f"oc{case['pseed']}"), **kw)
+            chans = rng.choice(nch, size=int(rng.integers(2, 5)), replace=False)
+            bs = int(rng.choice([200, 1, 2]))
+            case = dict(case, chans=chans.tolist(), batch_size=bs); ck.case = case
+            names = fil.extract_chans(chans, os.path.join(d, f"oc{case['pseed']}"), batch_size=bs, **kw)
             for name, chn in zip(names, chans):
                 ts = TimeSeries.from_tim(name)
                 t, c = _decode(ts.data)
@@ -280,7 +283,9 @@ def run_case(case, ctx):
             nb = int(rng.integers(1, nch // cps + 1))
             cs = int(rng.integers(0, nch - nb * cps + 1))
             case = dict(case, chanstart=cs, nbands=nb, chanpersub=cps); ck.case = case
-            names = fil.extract_bands(cs, nb * cps, cps, os.path.join(d, f"ob{case['pseed']}"), **kw)
+            bs = int(rng.choice([200, 1, 2, 3]))
+            case = dict(case, batch_size=bs); ck.case = case
+            names = fil.extract_bands(cs, nb * cps, cps, os.path.join(d, f"ob{case['pseed']}"), batch_size=bs, **kw)
             for name in names:
                 o = FilReader(name)
                 b = o.read_block(0, o.header.nsamples)
